@@ -190,13 +190,20 @@ def check_case(ctx, case):
     schedules = [list(x) for x in case["schedules"]]
     # plain repetition on the very same continuum and dissimilarity objects (first in order, then under a held schedule)
     schedules = [["repeat-same-objects:fifo", 1, 0], ["repeat-same-objects:lifo", 3, 1]] + schedules
-    for policy, workers, sseed in schedules:
+    spare = None
+    for k_run, (policy, workers, sseed) in enumerate(schedules):
         try:
             if policy.startswith("repeat-same-objects:"):
                 ctx.count("M-REPEAT")
                 dig, vals, recs, off = result_vector(ctx, sc, policy.split(":")[1], workers, sseed, objects=ref_objects)
-            else:
+            elif k_run < 5 or spare is None:
+                # fresh continuum and dissimilarity objects (every kernel compilation stays in memory for the life of
+                # the process, so only the first schedules get brand-new objects; the later ones share one more pair)
                 dig, vals, recs, off = result_vector(ctx, sc, policy, workers, sseed)
+                spare = (_last_objects["o"][0], None)
+            else:
+                dig, vals, recs, off = result_vector(ctx, sc, policy, workers, sseed,
+                                                     objects=(spare[0], cases.build_continuum(sc["continuum"])))
         except Exception as e:
             ctx.fail_exc(f"run-raises:{policy}:{type(e).__name__}", e, monitor="M-REPRO")
             continue
@@ -249,8 +256,12 @@ def run(ctx):
     rng = ctx.rng
     dspecs = cases.gen_pool_specs(rng, ctx.scale(6, 14), kinds=["combined", "combined", "positional", "absolute", "levenshtein", "precomputed"])
     dspecs.append({"kind": "combined", "alpha": 3.0, "beta": 1.0, "delta": 1.0, "pos": None, "cat": None})
+    import resource
     for i in range(ctx.scale(14, 160)):
         if ctx.out_of_time():
+            break
+        if resource.getrusage(resource.RUSAGE_SELF).ru_maxrss > 3_500_000:     # kB: compiled kernels are never freed
+            ctx.observe("stopped_early", "memory: compiled kernels of the fresh dissimilarity objects")
             break
         sc = gen_windowed_scenario(rng) if i % 5 == 4 else (gen_identical_scenario(rng) if i % 5 == 2 else gen_scenario(rng, dspecs))
         ctx.observe("scenario_kind", "fast-windowed-size" if i % 5 == 4 else ("identical-annotators" if i % 5 == 2 else "small"))
